@@ -150,7 +150,10 @@ func (e *Opener) ShouldOpen(_ context.Context, now time.Time) bool {
 		// not enough requests. Will not open circuit
 		return false
 	}
-	return int64(e.errPercentage(now)*100) >= e.errorPercentage.Get()
+	// Compare in integers: float64(errCount)/float64(attemptCount)*100 truncates below exact percentages
+	// (57 errors out of 100 attempts is 56.99999999999999), which kept the circuit closed right at the threshold.
+	errCount := e.errorsCount.RollingSumAt(now)
+	return errCount*100 >= e.errorPercentage.Get()*attemptCount
 }
 
 func (e *Opener) errPercentage(now time.Time) float64 {
